@@ -480,6 +480,18 @@ def directed(rnd):
     out.append(("quoted-declarations", "(declare-const |x y| Bool)(declare-fun |f g| (Int) Int)(define-fun |h k| ((|a b| Int) (c Bool)) Int (ite (and c |x y|) (|f g| |a b|) 0))(assert (= (|h k| 1 true) 2))(get-value ((|h k| 0 false)))"))
     out.append(("cr-lf-lines", "(declare-fun p () Bool)\r\n(declare-fun q () Bool)\r\n(assert (and p\r\n q))\r\n(check-sat)\r\n"))
     out.append(("pow", "(declare-fun r () Real)(assert (= (pow r 2) (* r r)))"))
+    # Bool-sorted terms headed by operators of other theories, as operands of = / distinct / ite / => / xor
+    out.append(("bool-select-eq", "(declare-fun a () (Array Int Bool))(declare-fun %s () Int)(declare-fun p () Bool)(assert (= (select a %s) p))(assert (= p (select a %s)))"
+                "(assert (not (= (select a %s) (select a (+ %s 1)))))(assert (xor (select a %d) p))(assert (=> (select a %d) (= (select (store a %d p) %s) p)))" % (v1, v1, v1, v1, v1, c1, c2, c1, v1)))
+    out.append(("bool-select-nested", "(declare-fun m () (Array (_ BitVec 4) (Array Int Bool)))(declare-fun p () Bool)(assert (forall ((%s Int)) (and p (= (select (select m #b0011) %s) p))))"
+                "(assert (= (select m #x1) (select m #x2)))(assert (ite (select (select m #x0) %d) (= p (select (select m #x0) %d)) (not p)))" % (v1, v1, c1, c2)))
+    out.append(("bool-uf-eq", "(declare-fun f (Int) Bool)(declare-fun p () Bool)(assert (= (f %d) p))(assert (= p (f %d)))(assert (distinct (f %d) (f %d)))"
+                "(assert (ite (f 1) (= (f 2) p) (=> p (f 3))))(assert (= (ite p (f 1) (f 2)) (not (f 3))))" % (c1, c2, c1, c2)))
+    out.append(("bool-relations-eq", "(declare-fun v () (_ BitVec %d))(declare-fun w () (_ BitVec %d))(declare-fun %s () Int)(declare-fun p () Bool)(assert (= (bvult v w) p))"
+                "(assert (= (= (bvcomp v w) #b1) (bvule w v)))(assert (= (< %s %d) (= %s %d)))(assert (= (exists ((%s Int)) (> %s %d)) p))" % (w, w, v1, v1, c1, v1, c2, v2, v2, c1)))
+    out.append(("ite-nonbool-left-of-eq", "(declare-fun p () Bool)(declare-fun %s () Int)(declare-fun v () (_ BitVec 4))(declare-fun a () (Array Int Int))(declare-fun b () (Array Int Int))"
+                "(declare-fun c () (Array Int Bool))(assert (= (ite p %s %d) %d))(assert (= (ite p v #x1) v))(assert (= (ite p a b) (store a %d %d)))(assert (= (ite (select c %s) a b) b))"
+                "(assert (= (select (ite p a b) %s) %d))" % (v1, v1, c1, c2, c1, c2, v1, v1, c1)))
     return out
 
 
